@@ -166,7 +166,19 @@ func init() {
 			}
 			var inner []string
 			for _, call := range w.callsTo(f, "crypto/merkle#innerHash") {
-				inner = append(inner, strings.ReplaceAll(w.callStr(call), k, "K"))
+				// the sub-tree hash may be a merge of the two recursive results selected by the same condition
+				// value that selects the side: resolve it under the conditions that dominate this call
+				args := callArgs(call)
+				parts := make([]string, len(args))
+				for i, a := range args {
+					parts[i] = w.expr(a)
+					if phi, isPhi := a.(*ssa.Phi); isPhi {
+						if e := phiUnder(phi, call.Block()); e != nil {
+							parts[i] = w.expr(e)
+						}
+					}
+				}
+				inner = append(inner, strings.ReplaceAll("crypto/merkle.innerHash("+strings.Join(parts, ", ")+")", k, "K"))
 			}
 			a := "crypto/merkle.innerHash(" + want1 + ", innerHashes[(len(innerHashes) - 1)])"
 			b := "crypto/merkle.innerHash(innerHashes[(len(innerHashes) - 1)], " + want2 + ")"
@@ -213,7 +225,7 @@ func init() {
 				guardCmp("total non-negative", `\w+\.Total`, ">=", "0"),
 				guardCmp("index non-negative", `\w+\.Index`, ">=", "0"),
 				guardRe("leaf hash equals H(leaf)", `^true\(bytes\.Equal\(\w+\.LeafHash, crypto/merkle\.leafHash\(leaf\)\)\)$`),
-				guardRe("recomputed root equals the given root", `^true\(bytes\.Equal\(\w+\.ComputeRootHash\(\), rootHash\)\)$`),
+				guardRe("recomputed root equals the given root", `^true\(bytes\.Equal\((\w+\.ComputeRootHash\(\)|crypto/merkle\.computeHashFromAunts\(\w+\.Index, \w+\.Total, \w+\.LeafHash, \w+\.Aunts\)), rootHash\)\)$`),
 			} {
 				c.Check(c.ge().ensures(f, g, 2), "crypto/merkle.Proof.Verify ensures "+g.Name, w.pos(f.Pos()), "nil only behind this check", "Verify can return nil without: "+g.Name)
 			}
@@ -239,7 +251,7 @@ func init() {
 					c.guards(f, ret, key+" (leaf)", 0, guardCmp("single leaf", "total", "==", "1"), guardCmp("no aunts left over", `len\(innerHashes\)`, "==", "0"))
 				} else {
 					c.guards(f, ret, key+" (inner)", 0, guardCmp("more than one leaf", "total", "!=", "1"), guardCmp("an aunt is available", `len\(innerHashes\)`, "!=", "0"),
-						guardRe("sub-tree hash was computable", `^nonnil\(crypto/merkle\.computeHashFromAunts\(.*\)\)$`))
+						guardRe("sub-tree hash was computable", `^nonnil\((crypto/merkle\.computeHashFromAunts\(.*\)|phi\(crypto/merkle\.computeHashFromAunts\(.*\)\|crypto/merkle\.computeHashFromAunts\(.*\)\))\)$`))
 				}
 			}
 		}
@@ -330,4 +342,53 @@ func init() {
 		}
 		c.Check(n >= 2, "Merkle proof verification sites found", "-", fmt.Sprintf("%d", n), fmt.Sprintf("only %d sites", n))
 	})
+}
+
+// phiUnder resolves a phi to the single incoming value that is consistent with the branch decisions
+// dominating block at: an incoming edge is inconsistent when its predecessor is only reachable through the
+// opposite outcome of a condition *value* that also decides a branch dominating at (the same boolean
+// computed once and tested twice).
+func phiUnder(phi *ssa.Phi, at *ssa.BasicBlock) ssa.Value {
+	type dec struct {
+		cond ssa.Value
+		pol  bool
+	}
+	var decs []dec
+	for b := at; b != nil; b = b.Idom() {
+		if len(b.Preds) != 1 {
+			continue
+		}
+		p := b.Preds[0]
+		if ifi, ok := p.Instrs[len(p.Instrs)-1].(*ssa.If); ok && len(p.Succs) == 2 && p.Succs[0] != p.Succs[1] {
+			decs = append(decs, dec{ifi.Cond, p.Succs[0] == b})
+		}
+	}
+	var keep []ssa.Value
+	for i, e := range phi.Edges {
+		pred := phi.Block().Preds[i]
+		consistent := true
+		for _, d := range decs {
+			// is pred only reachable through the opposite outcome of d.cond?
+			for _, blk := range phi.Parent().Blocks {
+				ifi, ok := blk.Instrs[len(blk.Instrs)-1].(*ssa.If)
+				if !ok || ifi.Cond != d.cond || len(blk.Succs) != 2 {
+					continue
+				}
+				opp := blk.Succs[1]
+				if !d.pol {
+					opp = blk.Succs[0]
+				}
+				if len(opp.Preds) == 1 && opp.Dominates(pred) {
+					consistent = false
+				}
+			}
+		}
+		if consistent {
+			keep = append(keep, e)
+		}
+	}
+	if len(keep) == 1 {
+		return keep[0]
+	}
+	return nil
 }
